@@ -149,6 +149,15 @@ type World struct {
 	ServerConn *simnet.SimConn
 	ClientKeys *KeyLog
 	ServerKeys *KeyLog
+	Obs        *Observer
+}
+
+// Observe attaches the decrypting wire observer to the router (classes then include packet kinds of all
+// coalesced packets and "frame:<NAME>" labels; Record.Pkts holds []*Packet).
+func (w *World) Observe() *Observer {
+	w.Obs = NewObserver(w.ClientKeys, w.ServerKeys)
+	w.Router.Classify = w.Obs.Classify
+	return w.Obs
 }
 
 // NewWorld creates the endpoints. Must be called inside a bubble.
